@@ -67,6 +67,9 @@ type tline struct {
 	toks   []string
 	ff     *fetchfake.Fake
 	ffNext int
+
+	// notes: feature tags found while projecting the groupfake history (see tokens)
+	notes []string
 }
 
 func (t *tline) rec(tok string) {
@@ -132,9 +135,22 @@ func (t *tline) tokens() []string {
 		return num[m]
 	}
 	var out []string
+	lastJ := "" // member id of the last j that no D followed yet
 	for _, e := range t.gf.History() {
+		if lastJ != "" && e.Member == lastJ {
+			// why the member of the last j may not have to (or cannot) leave
+			switch {
+			case e.Kind == "evict":
+				t.notes = append(t.notes, "evicted")
+			case (e.Kind == "join" || e.Kind == "sync" || e.Kind == "hb") && e.Client == clientU && e.Code != 0:
+				t.notes = append(t.notes, fmt.Sprintf("member-error=%s:%x", e.Kind, e.Code))
+			}
+		}
 		switch e.Kind {
 		case "tl":
+			if e.Note[0] == 'D' {
+				lastJ = ""
+			}
 			out = append(out, e.Note)
 		case "tlq":
 			s := apiShort[e.Note]
@@ -145,6 +161,7 @@ func (t *tline) tokens() []string {
 		case "join":
 			if e.Client == clientU && e.Code == 0 && e.Drop == 0 {
 				out = append(out, fmt.Sprintf("j%x", id(e.Member)))
+				lastJ = e.Member
 			}
 		}
 	}
